@@ -14,7 +14,8 @@ def T(module, *names, partial=False):
           "Kanzi.Properties.C01": "Kanzi.C01", "Kanzi.Properties.C19_cli": "Kanzi.C19",
           "Kanzi.Properties.C05_jobs": "Kanzi.C05", "Kanzi.Properties.C12_ans0": "Kanzi.C12",
           "Kanzi.Properties.C01_none": "Kanzi.C01none", "Kanzi.Properties.C03_bound": "Kanzi.C03", "Kanzi.Properties.C19_levels": "Kanzi.C19",
-          "Kanzi.Properties.ConstsTie": "Kanzi.ConstsTie", "Kanzi.Properties.BitOpsTie": "Kanzi.BitOpsTie", "Kanzi.Properties.C12_range": "Kanzi.C12"}[module]
+          "Kanzi.Properties.ConstsTie": "Kanzi.ConstsTie", "Kanzi.Properties.BitOpsTie": "Kanzi.BitOpsTie", "Kanzi.Properties.C12_range": "Kanzi.C12", "Kanzi.Properties.C13_rlt": "Kanzi.C13",
+          "Kanzi.Properties.C12_ans1": "Kanzi.C12", "Kanzi.Properties.C12_cm": "Kanzi.C12"}[module]
     return [{"module": module, "name": n if n.startswith("Kanzi.") else ns + "." + n, "partial": partial or n.endswith("_partial")} for n in names]
 
 
@@ -56,6 +57,9 @@ JOBS = {"name": "jobs", "kmodel": "jobs"}
 IMAGE = {"name": "image", "kmodel": "image"}
 LEVELS = {"name": "levels", "timeout": 7200}
 RANGE = {"name": "range", "kmodel": "range", "timeout": 3600}
+RLT = {"name": "rlt", "kmodel": "rlt", "timeout": 3600}
+ANS1 = {"name": "ans1", "kmodel": "ans1", "timeout": 3600}
+CMPRED = {"name": "cmpred", "kmodel": "cmpred", "timeout": 3600}
 MNONE = "Kanzi.Properties.C01_none"
 MJOBS = "Kanzi.Properties.C05_jobs"
 JOBS_T = ["C05_jobs_partition", "C05_jobs_fewer", "C05_jobs_closed_form", "C05_jobs_errors", "C05_bwt_chunks_covered_gen", "C05_bwt_chunks_covered"]
@@ -104,7 +108,7 @@ PROPS["C03"] = {
     "theorems": T(M03F, "C03_every_panic_site_recovered", "C03_facts_nonvacuous")
                 + T(M07, "C07_dec_progress", "C07_dec_measure_mono", "C07_dec_measure_init", "C07_dec_cancel_stable")
                 + T("Kanzi.Properties.C03_bound", "C03_frame_bound", "C03_frame_bound_linear") + T(MJOBS, "C05_bwt_chunks_covered") + T(MCT, "io_consts"),
-    "streams": [IMAGE, JOBS, FUZZDEC],
+    "streams": [IMAGE, JOBS, SR, FUZZDEC],
     "level_text": "PARTIAL PROOF. Proved: (1) every `go` statement of the library spawns a function with a deferred recover and the caller-goroutine entry points recover (theorem by `decide` over Generated/GoSites.lean, re-extracted from /repo's AST on every run, so a new unrecovered goroutine breaks the proof); (2) the decode hand-off protocol has no deadlock or endless wait for any number of tasks and any failure placement (C07_dec_progress etc.); (3) a task never allocates for or reads a frame longer than a bound that depends on the block size only (C03_frame_bound over the frame parser that the image stream compares with the real Reader on damaged and cut streams). NOT proved: termination and memory safety inside each codec's Inverse/Read on attacker-controlled data; those are only searched (fuzzdec: structure-aware mutations - re-checksummed headers, forged lengths, forged codec headers, splices, truncations - decoded in child processes with a watchdog).",
     "level_note": BASE_NOTE + "The syntactic fact extractor harness/cmd/kv/facts_ast.go (go/parser; one level of callee resolution; self-tested). Codec internals are outside the model.",
     "assumptions": ["a deferred recover at the top of every spawned function converts every panic of that goroutine into a task error", "codec Inverse/Read loops terminate (searched, not proved)"],
@@ -149,7 +153,7 @@ PROPS["C07"] = {
     "technique": "Lean 4 invariant proofs for every N and every interleaving over a step-function model of the atomic-counter protocol; hook traces of the real code replayed through the same step functions",
     "facts": ["Consts"],
     "theorems": T(M07, *C07_ALL) + T(MCT, "io_consts"),
-    "streams": [PROTO],
+    "streams": [PROTO, SR],
     "level_text": "PROOF for every number of tasks N and every reachable state (all interleavings, failure at any step): mutual exclusion on the shared stream, blocks appended/taken in id order exactly once, deadlock freedom with a measure bounded by 9N (every weakly fair run terminates), cancel value stable, a failure while holding the token blocks all later tasks, batch result = first failed task. Tie: the real encode/decode tasks run under the build-tag hook with perturbed schedules and injected failures; every recorded atomic action (with the counter value it observed) must be an enabled transition of encStep/decStep and the batch outcome must match; hangs are caught by a watchdog.",
     "level_note": BASE_NOTE + "The protocol model (atomic actions of encode/decode transcribed by hand) is tied by trace replay of hook-instrumented real runs: the hook serialises each atomic op between PRE/POST calls so the recorded order is the real order; Go memory model / sync.WaitGroup semantics are not modelled; 'stop promptly' is formalised as bounded own steps + stable cancel.",
     "assumptions": ["sync/atomic operations are sequentially consistent (Go memory model)", "WaitGroup.Wait returns only after every Done"],
@@ -202,25 +206,28 @@ PROPS["C11"] = {
 
 PROPS["C12"] = {
     "title": "Entropy codecs: exact inverse pairs with bit-exact consumption", "design_ref": "5.12", "level": "proof",
-    "technique": "PARTIAL Lean proof: varint, alphabet, NONE codec, frequency headers, the whole ANS order-0 codec and the whole RANGE codec proved as inverse pairs with exact consumption on bit strings, models tied byte-exactly to the Go encoders; all 9 codecs searched directly on the real code",
+    "technique": "PARTIAL Lean proof: varint, alphabet, NONE codec, frequency headers, the whole ANS order-0, ANS order-1 and RANGE codecs proved as inverse pairs; CM predictor proved range-safe; with exact consumption on bit strings, models tied byte-exactly to the Go encoders; all 9 codecs searched directly on the real code",
     "facts": ["Consts", "BitOps"],
     "theorems": T(M12, "C12_varint", "C12_alphabet", "C12_none", "C12_freq_header", "C12_freq_header_needs_sum", "C12_freq_header_after_normalize", "C12_ans_reciprocal", "C12_ans_encode_closed_form", "C12_ans_step")
                 + T(M16, "C16_normalize")
                 + T("Kanzi.Properties.C12_ans0", "C12_ans0_single_state", "C12_ans0_interleaved", "C12_ans0_payload_le", "C12_ans0_chunk", "C12_ans0_chunk_sz", "C12_ans0_one_chunk", "C12_ans0_block")
-                + T("Kanzi.Properties.C12_range", "C12_range_init", "C12_range_renorm", "C12_range_renorm_model", "C12_range_step", "C12_range_tables", "C12_range_payload", "C12_range_chunk", "C12_range_one_chunk", "C12_range_chunk_lr", "C12_range_block") + T(MCT, "entropy_consts", "consts_nonvacuous") + T(MBO, "entropy_layouts", "entropy_pairs_mirror"),
-    "streams": [ENTSMALL, RANGE, ENTDIRECT],
-    "level_text": "PARTIAL PROOF. Proved in Lean, each as `decode (encode x ++ rest) = (x, rest)` for every trailing bit string (exact consumption): VarInt, alphabet (all three encodings), the NONE codec for every length incl. 0 and > 2^23, the ANS order-0 and Range frequency headers (correct iff the table sums to 2^lr - which C16_normalize guarantees: C12_freq_header_after_normalize), one rANS step incl. the reciprocal-multiply division for every frequency and state. The whole ANS order-0 codec is proved: one state over any symbol list, the 4 interleaved states sharing one word stream, header + chunk, and the complete block Write/Read with per-chunk normalised tables (C12_ans0_block: for all bytes, lr in [8,15], chunk size < 2^26, decode(encode blk ++ rest) = (blk, rest)); the same model is tied differentially (byte-identical output on thousands of blocks). The whole order-0 RANGE codec is proved too: the carry-less renormalisation loop leaves after at most 2 shifts with range > 0xFFFF (C12_range_renorm), one encodeByte/decodeByte pair keeps both sides' registers equal with the decoder's code inside [low, low+range) and exact consumption (C12_range_step), and Write+Dispose followed by any bits then Read returns the block and leaves those bits, for every length incl. 0, every chunk size and logRange 8..15 (C12_range_block); tied byte-exactly by the range stream incl. searched blocks that take the rare truncation / double-shift branches. NOT modelled: the encoder's finite output buffer for ANS0, Huffman, ANS order 1, FPAQ, CM, TPAQ, TPAQX - searched directly on the real code (entdirect: all 9 codecs, lengths around every chunk boundary, 1..256 symbols, adversarial histograms, misaligned start, trailing sentinel, Read()==Written()).",
+                + T("Kanzi.Properties.C12_range", "C12_range_init", "C12_range_renorm", "C12_range_renorm_model", "C12_range_step", "C12_range_tables", "C12_range_payload", "C12_range_chunk", "C12_range_one_chunk", "C12_range_chunk_lr", "C12_range_block")
+                + T("Kanzi.Properties.C12_ans1", "C12_ans1_params", "C12_ans1_header", "C12_ans1_header_exact", "C12_ans1_single_state", "C12_ans1_interleaved", "C12_ans1_payload_le", "C12_ans1_chunk", "C12_ans1_chunk_sz", "C12_ans1_one_chunk", "C12_ans1_block", "C12_ans1_block_ctor")
+                + T("Kanzi.Properties.C12_cm", "C12_cm_init", "C12_cm_new", "C12_cm_step", "C12_cm_get_range", "C12_cm_get_rangeZ", "C12_cm_no_fault", "C12_cm_int32", "C12_cm_int32_go", "C12_cm_run", "C12_cm_consts", "C12_cm_pred_safe") + T(MCT, "entropy_consts", "range_consts", "consts_nonvacuous") + T(MBO, "entropy_layouts", "entropy_pairs_mirror"),
+    "streams": [ENTSMALL, RANGE, ANS1, CMPRED, ENTDIRECT],
+    "level_text": "PARTIAL PROOF. Proved in Lean, each as `decode (encode x ++ rest) = (x, rest)` for every trailing bit string (exact consumption): VarInt, alphabet (all three encodings), the NONE codec for every length incl. 0 and > 2^23, the ANS order-0 and Range frequency headers (correct iff the table sums to 2^lr - which C16_normalize guarantees: C12_freq_header_after_normalize), one rANS step incl. the reciprocal-multiply division for every frequency and state. The whole ANS order-0 codec is proved: one state over any symbol list, the 4 interleaved states sharing one word stream, header + chunk, and the complete block Write/Read with per-chunk normalised tables (C12_ans0_block: for all bytes, lr in [8,15], chunk size < 2^26, decode(encode blk ++ rest) = (blk, rest)); the same model is tied differentially (byte-identical output on thousands of blocks). The whole order-0 RANGE codec is proved too: the carry-less renormalisation loop leaves after at most 2 shifts with range > 0xFFFF (C12_range_renorm), one encodeByte/decodeByte pair keeps both sides' registers equal with the decoder's code inside [low, low+range) and exact consumption (C12_range_step), and Write+Dispose followed by any bits then Read returns the block and leaves those bits, for every length incl. 0, every chunk size and logRange 8..15 (C12_range_block); tied byte-exactly by the range stream incl. searched blocks that take the rare truncation / double-shift branches. The whole ANS order-1 codec is proved as well (256-context header with stale-table threading, one state over a quarter, the 4 interleaved quarters, chunk of every length incl. 0..3, whole block through the constructor's parameter rules: C12_ans1_block_ctor), byte-exact ans1 stream. The CM predictor is modelled with its int32 arithmetic and proved to be a safe predictor: counters stay within [0,65520] (one column 65535), every Get() is in [0,4095] for both bitstream versions, no index fault, no int32 wrap (C12_cm_*; C12_cm_pred_safe is the instance hypothesis of the generic binary-coder theorem); cmpred stream compares every Get() value. NOT modelled: the encoders' finite output buffers, Huffman, FPAQ, the binary arithmetic coder itself (slice in progress), TPAQ/TPAQX predictors - searched directly on the real code (entdirect: all 9 codecs, lengths around every chunk boundary, 1..256 symbols, adversarial histograms, misaligned start, trailing sentinel, Read()==Written()).",
     "level_note": BASE_NOTE + "logRange restricted to [8,15] as used by the factory (16 is accepted by the public constructors but unusable: observation in DESIGN.md).",
     "assumptions": ["adaptive binary codecs run the identical predictor on both sides (searched)"],
 }
 
 PROPS["C13"] = {
     "title": "Transforms: exact inverse pairs, in bounds, clean decline", "design_ref": "5.13", "level": "proof",
-    "technique": "PARTIAL Lean proof: Null, ZRLT, SBRT (all modes) and the transform sequence with skip flags proved as inverse pairs with output bounds; byte-identical differential tie; all 19 transforms searched directly with canaries",
+    "technique": "PARTIAL Lean proof: Null, ZRLT, SBRT (all modes), RLT (incl. totality of Inverse on arbitrary input) and the transform sequence with skip flags proved as inverse pairs with output bounds; byte-identical differential tie; all 19 transforms searched directly with canaries",
     "facts": ["Consts"],
-    "theorems": T(M13, "C13_null", "C13_zrlt", "C13_zrlt_bytes", "C13_zrlt_no_wrap", "C13_sbrt", "C13_sequence", "C13_sequence_plain", "C13_sequence_all_declined", "C13_sequence_mode_byte", "C13_sequence_len", "C13_sequence_small") + T(MCT, "transform_consts", "io_consts"),
-    "streams": [TRSMALL, TRDIRECT],
-    "level_text": "PARTIAL PROOF. Proved for all blocks: Null, ZRLT (output <= MaxEncodedLen, inverse restores), SBRT in every mode; the transform sequence for up to 8 stages and every pattern of declining stages (skip flags in the mode byte or the extra byte recover exactly; all-declined leaves the block; composed MaxEncodedLen bounds the output). Models tied by byte-identical outputs on tens of thousands of blocks. NOT modelled: BWT/BWTS, LZ/LZX/LZP, ROLZ/ROLZX, TEXT, UTF, EXE, MM, PACK/DNA, SRT, RLT - searched directly on the real code (trdirect: every transform and the CLI chains, pipeline buffer sizes with canaries, input-intact checks, data-type hints, all data shapes).",
+    "theorems": T(M13, "C13_null", "C13_zrlt", "C13_zrlt_bytes", "C13_zrlt_no_wrap", "C13_sbrt", "C13_sequence", "C13_sequence_plain", "C13_sequence_all_declined", "C13_sequence_mode_byte", "C13_sequence_len", "C13_sequence_small")
+                + T("Kanzi.Properties.C13_rlt", "C13_rlt", "C13_rlt_total", "C13_rlt_bytes", "C13_rlt_shorter") + T(MCT, "transform_consts", "io_consts", "rlt_consts"),
+    "streams": [TRSMALL, RLT, TRDIRECT],
+    "level_text": "PARTIAL PROOF. Proved for all blocks: Null, ZRLT (output <= MaxEncodedLen, inverse restores), SBRT in every mode; the transform sequence for up to 8 stages and every pattern of declining stages (skip flags in the mode byte or the extra byte recover exactly; all-declined leaves the block; composed MaxEncodedLen bounds the output). Models tied by byte-identical outputs on tens of thousands of blocks. RLT is modelled completely (escape selection, DetectSimpleType, both early declines, 1/2/3-byte run lengths, pending byte, tail) and proved: accepted blocks are strictly shorter, fit MaxEncodedLen and are restored by Inverse into any destination >= the original length, and NEITHER direction can index out of range - Inverse on ARBITRARY input returns ok or a clean error (C13_rlt, C13_rlt_total, C13_rlt_shorter); byte-exact rlt stream (both defects F28/F29 are flagged on the pre-fix file). NOT modelled: BWT/BWTS, LZ/LZX/LZP, ROLZ/ROLZX, TEXT, UTF, EXE, MM, PACK/DNA, SRT (slice being re-proved after fix F32) - searched directly on the real code (trdirect: every transform and the CLI chains, pipeline buffer sizes with canaries, input-intact checks, data-type hints, all data shapes).",
     "level_note": BASE_NOTE + "'input left unmodified' is immediate in the value-level model and checked on the real buffers by the trdirect oracle.",
     "assumptions": [],
 }
